@@ -443,12 +443,16 @@ fn log_sum_exp<F: linfa::Float, A: Data<Elem = F>>(
     m: &ArrayBase<A, Ix2>,
     axis: Axis,
 ) -> Array<F, Ix1> {
-    // Find max value of the array
-    let max = m.iter().copied().reduce(F::max).unwrap();
-    // Computes `max + ln(exp(x1-max) + exp(x2-max) + exp(x3-max) + ...)`, which is equal to the
-    // log_sum_exp formula
-    let reduced = m.fold_axis(axis, F::zero(), |acc, elem| *acc + (*elem - max).exp());
-    reduced.mapv_into(|e| e.max(F::cast(1e-15)).ln() + max)
+    // Find the max value of every lane along `axis` (shifting by the global max of the matrix
+    // underflows all lanes whose own maximum lies far below it)
+    let mut out = m.fold_axis(axis, F::neg_infinity(), |acc, elem| acc.max(*elem));
+    // Computes `max + ln(exp(x1-max) + exp(x2-max) + exp(x3-max) + ...)` lane by lane, which is
+    // equal to the log_sum_exp formula; the sum is >= 1, so no clamping is needed
+    Zip::from(&mut out).and(m.lanes(axis)).for_each(|o, lane| {
+        let max = *o;
+        *o = lane.fold(F::zero(), |acc, elem| acc + (*elem - max).exp()).ln() + max;
+    });
+    out
 }
 
 /// Computes `exp(n - max) / sum(exp(n- max))`, which is a numerically stable version of softmax
